@@ -170,14 +170,20 @@ def _run_one(res, case, w, seam, mp, creation):
     if marks != want_marks:
         errs.append('actions executed %s, expected each case once in processing order: %s' % (marks, want_marks))
     if rep == 'progress':
-        lines = [re.sub(r'\(\d+\.\d+s\) ', '', l) for l in o.out.split('\n') if l.strip()]
+        # one event per line; only the tokens are compared (kind, name, what), not spacing or durations
+        lines = []
+        for l in o.out.split('\n'):
+            if not l.strip():
+                continue
+            toks = re.sub(r'\(\d+(\.\d+)?s\)', '', l).replace(':', ' ').split()
+            lines.append(tuple(toks))
         want = []
         for s, cs in slots:
-            want.append('suite %s: begin' % s)
+            want.append(('suite', s, 'begin'))
             for c in cs:
-                want.append('case  %s: %s' % (c, IDENT.get(verdict_of[c], verdict_of[c])))
-            want.append('suite %s: end' % s)
-        want.append('OK' if all_ok else 'ERROR')
+                want.append(('case', c, IDENT.get(verdict_of[c], verdict_of[c])))
+            want.append(('suite', s, 'end'))
+        want.append(('OK',) if all_ok else ('ERROR',))
         if lines != want:
             errs.append('progress output %s, expected %s' % (lines, want))
         if o.rc != (0 if all_ok else 4):
